@@ -12,7 +12,7 @@ RULE = (
 )
 ASSUMPTIONS = ["API route (Linter.lint_string + LintedFile.fix_string); the CLI route is compared with it in C19"]
 TIMEOUT = {"quick": 400, "thorough": 900}
-MIN_NONTRIVIAL = {"quick": 60, "thorough": 600}
+MIN_NONTRIVIAL = {"quick": 30, "thorough": 600}
 REQUIRED_COUNTERS = ["reparsed_fixed_texts", "files_changed_by_fix"]
 
 
@@ -21,7 +21,7 @@ def universe():
 
 
 def cases(tier, seed):
-    return stratified_sample(universe(), lambda c: c.get("stratum", ""), 420 if tier == "quick" else 0, seed)
+    return stratified_sample(universe(), lambda c: c.get("stratum", ""), 260 if tier == "quick" else 0, seed)
 
 
 def run_case(case):
